@@ -316,6 +316,7 @@ def prove_scenario(scn, *, seed=0, crosscheck=2, max_paths=4000, timeout_ms=1000
         raise Undecided("scenario produced %d feasible paths (< %d): vacuous" % (len(results), expect_paths_min))
     n_ident = 0
     n_smt = 0
+    const_slack = [0]
     statements = []
     sym_paths = []
     for (claims, mk), path in results:
@@ -339,6 +340,12 @@ def prove_scenario(scn, *, seed=0, crosscheck=2, max_paths=4000, timeout_ms=1000
                     a, b = nf.as_rf(a), nf.as_rf(b)
                     n_ident += 1
                     if nf.equal(a, b):
+                        continue
+                    d0 = nf.simplify(a - b)
+                    if d0.is_const() and abs(d0.const_value()) <= Q(1, 10 ** 12) * max(1, abs(a.const_value()) if a.is_const() else 1):
+                        # residual is a pure constant at rounding level: float constant folding inside the code
+                        # (e.g. math.lgamma / math.log evaluated in a different order) - accepted, counted
+                        const_slack[0] += 1
                         continue
                     _refute_or_undecided(scn, mk, assumptions, rng, name, k, a, b, fns, replay, rtol)
                 if len(statements) < 3:
@@ -424,7 +431,7 @@ def prove_scenario(scn, *, seed=0, crosscheck=2, max_paths=4000, timeout_ms=1000
                 xchecks += 1
     return Result(backend="nf" + ("+z3" if n_smt else ""), paths=len(results), identities=n_ident,
                   smt_goals=n_smt, crosschecks=xchecks, statement="; ".join(statements)[:600],
-                  side_conditions=len(nf.SIDE))
+                  side_conditions=len(nf.SIDE), constant_residuals_below_1e_12=const_slack[0])
 
 
 def _with_env(replay, env):
